@@ -36,7 +36,11 @@ def handle (j : Json) : Json :=
                                   | .ok (.arr a) => some (a.toList.map (fun ch => (asArr ch).map (fun sl => (asNat ((asArr sl).getD 0 Json.null), asNat ((asArr sl).getD 1 Json.null)))))
                                   | _ => none,
                      envGpus := jnatOpt cj "env_gpus", envGpuIds := jnat cj "env_gpu_ids" }
-    match initRM (kindOf (jstr j "kind")) c ((jarr j "lines").map lineOf) ((jarr j "hosts").map nameOf)
+    -- CCM: several node list files, the newest (by modification time) counts
+    let lines : List Line := match j.getObjVal? "ccm_files" with
+      | .ok (.arr a) => (newestFile (a.toList.map (fun f => (jnat f "mtime", (jarr f "lines").map lineOf)))).2
+      | _ => (jarr j "lines").map lineOf
+    match initRM (kindOf (jstr j "kind")) c lines ((jarr j "hosts").map nameOf)
             (jnatOpt j "env_cpus") (jnat j "detected") ((jarr j "reach").map asNat) with
     | .error _ => Json.str "error"
     | .ok i => Json.mkObj [("node_list", jl (i.nodeList.map jnode)), ("agent_node_list", jl (i.agentNodes.map jnode)),
